@@ -65,22 +65,22 @@ Definition parse_file_hdr (f : bytes) : res (N * N) :=
 Definition take_uv (l : bytes) : res (N * bytes) := uv_dec l.
 
 Definition parse_hdr (l : bytes) : res (N * N * bool * N) :=
-  match uv_dec l with
+  match uv_dec_min l with
   | Err e => Err e
   | Ok (m, l1) =>
     if negb (m =? magic) then Err MagicMismatch else
     match l1 with
     | [] => Err EOF
     | nb :: l2 =>
-      match uv_dec l2 with
+      match uv_dec_min l2 with
       | Err e => Err e
       | Ok (usz, l3) =>
-        match uv_dec l3 with
+        match uv_dec_min l3 with
         | Err e => Err e
         | Ok (csz, l4) =>
           let consumed := (length l - length l4)%nat in
           let actual := crc32c (firstn consumed l) in
-          match uv_dec l4 with
+          match uv_dec_min l4 with
           | Err e => Err e
           | Ok (expected, l5) =>
             if actual =? expected then Ok (usz, csz, nb =? 1, N.of_nat (length l - length l5)%nat)
